@@ -1003,8 +1003,15 @@ func (p *pkg) mergeFacts() {
 		case strings.Contains(t, "result.AddPossibleType(iface,definition)") && strings.Contains(t, "if!exists{"):
 			possibleFrom = "PossibleTypesFrom.firstDefinition"
 		}
-		if strings.Contains(t, "forname,definition:=rangeresult.Types{") || strings.Contains(t, "for_,definition:=rangeresult.Types{") || strings.Contains(t, "registerPossibleTypes(result") {
-			possibleFrom = "PossibleTypesFrom.mergedDefinitions"
+		// after the repair: one pass over the merged definitions (in sorted name order) registers possible
+		// types and implemented interfaces; nothing is registered while the groups are being merged
+		if i := strings.Index(t, "for_,name:=rangetypeNames{definition:=result.Types[name]switchdefinition.Kind{"); i >= 0 {
+			if !strings.Contains(t[:i], "AddPossibleType(") && !strings.Contains(t[:i], "AddImplements(") &&
+				strings.Contains(t[i:], "result.AddPossibleType(iface,definition)") && strings.Contains(t[:i], "sort.Strings(typeNames)") {
+				possibleFrom = "PossibleTypesFrom.mergedDefinitions"
+			} else {
+				possibleFrom = "PossibleTypesFrom.unrecognised"
+			}
 		}
 	}
 	valueCmp := "ValueCompare.unrecognised"
@@ -1029,7 +1036,10 @@ func (p *pkg) mergeFacts() {
 	dirBoth := false
 	if fd := p.funcs["mergeDirectiveListsEqual"]; fd != nil {
 		t := p.norm(fd.Body)
-		dirBoth = strings.Count(t, "ForName(") >= 2 || strings.Contains(t, "mergeDirectiveListsEqualOneWay") || strings.Contains(t, "directiveListContains")
+		// equal lengths plus an injective pairing of equal applications (a multiset comparison)
+		dirBoth = strings.Contains(t, "iflen(list1)!=len(list2){") && strings.Contains(t, "matched:=make([]bool,len(list2))") &&
+			strings.Contains(t, "ifmatched[i]||directive2.Name!=directive1.Name{continue}") && strings.Contains(t, "matched[i]=true") &&
+			!strings.Contains(t, "ForName(")
 	}
 	emit("def merge : MergeFacts := { kindGuard := %s, nilGuards := %s, valueCompare := %s, possibleTypesFrom := %s, directiveListsBothWays := %s }",
 		leanBool(kindGuard), leanStrList(nilGuards), valueCmp, possibleFrom, leanBool(dirBoth))
